@@ -61,6 +61,11 @@ func (its *SnapshotDatatype) SetMetaAndSnapshot(meta, snap []byte) errors.OrdaEr
 	if err := json.Unmarshal(snap, its.GetSnapshot()); err != nil {
 		return errors.DatatypeMarshal.New(its.L(), err.Error())
 	}
+	// the imported identifiers and state are the new rollback point: a transaction that fails afterwards
+	// must not bring back what the datatype was before the import.
+	if tx, ok := its.Datatype.(interface{ ResetTransaction() errors.OrdaError }); ok {
+		return tx.ResetTransaction()
+	}
 	return nil
 }
 
